@@ -31,6 +31,7 @@ type Case struct {
 	TIn   []byte
 	Cuts  []int
 	RF    bool
+	EOF   bool // the client half-closes after its last byte: reads return io.EOF
 	WF    int // -1 none
 	CX    bool
 	Extra map[string]string
@@ -63,8 +64,12 @@ func (c *Case) Line() string {
 		}
 		return "0"
 	}
+	rf := b(c.RF)
+	if c.EOF {
+		rf = "2"
+	}
 	s := fmt.Sprintf("id=%s camp=%s L=%d auth=%s tls=%d ver=%s gp=%s mw=%s term=%d in=%s tin=%s cuts=%s rf=%s wf=%s cx=%s",
-		c.ID, c.Camp, c.L, b(c.Auth), c.TLS, hx(c.Ver), gp, mw, c.Term, hx(c.In), hx(c.TIn), strings.Join(cuts, ","), b(c.RF), wf, b(c.CX))
+		c.ID, c.Camp, c.L, b(c.Auth), c.TLS, hx(c.Ver), gp, mw, c.Term, hx(c.In), hx(c.TIn), strings.Join(cuts, ","), rf, wf, b(c.CX))
 	keys := make([]string, 0, len(c.Extra))
 	for k := range c.Extra {
 		keys = append(keys, k)
@@ -138,6 +143,7 @@ func ParseCase(line string) (*Case, error) {
 			}
 		case "rf":
 			c.RF = v == "1"
+			c.EOF = v == "2"
 		case "wf":
 			if v != "-" {
 				c.WF, err = strconv.Atoi(v)
@@ -192,6 +198,9 @@ func validateFn(s *session) func(ctx context.Context, database, username, passwo
 		switch {
 		case strings.HasPrefix(password, "ok"):
 			return ctx, true, nil
+		case strings.HasPrefix(password, "faileof"):
+			// e.g. a user directory that lost its backend connection
+			return ctx, false, fmt.Errorf("verif: validator backend: %w", io.EOF)
 		case strings.HasPrefix(password, "fail"):
 			return ctx, false, errors.New("verif: validator failed")
 		}
@@ -273,6 +282,7 @@ func RunCase(c *Case) *Result {
 	}
 	before := renderKV(userMap)
 	conn := NewConn(segments(c.In, c.Cuts), c.RF, c.WF)
+	conn.clientDone = c.EOF
 	if c.Extra["evat"] == "1" {
 		s.log.conn = conn
 	}
